@@ -132,7 +132,7 @@ Definition prop_ok (c : c07case) : bool :=
            end
            && (if n >? L then negb (match okLen with Some _ => true | None => false end) else true)
            (* a bomb must not be buffered: allocation stays far below the inflated size *)
-           && (if (32 * mib <=? n) && (L <=? mib) then alloc <=? 24 * mib else true)
+           && (if (32 * mib <=? n) && (L <=? mib) then alloc <=? 32 * mib else true)
   | CMultipart L ce bodyLen inflatedLen res =>
       if L <=? 0 then true
       else let fed := if ce =? 1 then inflatedLen else bodyLen in
